@@ -2,6 +2,7 @@
    Only statements; proofs are in Proofs/. *)
 From Coq Require Import List NArith ZArith Permutation.
 Require Import Base Mol Partition MolProofs SameMol.
+Require ParamsSpec.   (* regenerated source constants still match what the model hard-codes *)
 
 (* The class of an atom does not depend on how the molecule is numbered, in which order atoms and
    bonds are listed, how bonds are oriented, or on any non-identity data: for two descriptions
